@@ -40,9 +40,26 @@ func genKqFD(prop string, seed uint64, run int, tier string) *Scenario {
 	}
 	setup = append(setup, Op{K: OpSymlink, P: "k/ld1", P2: "d1"})
 	setup = append(setup, Op{K: OpNewWatcher, N: []int{-1, 0, 16}[g.r.Intn(3)]})
+	// 20 % of the runs spell some paths the way users do: "./dir", "dir/"
+	spell := func(p string) string { return p }
+	if g.chance(0.2) {
+		spell = func(p string) string {
+			switch g.r.Intn(4) {
+			case 0:
+				return "./" + p
+			case 1:
+				return p + "/"
+			}
+			return p
+		}
+	}
 	for _, d := range dirs {
 		if g.chance(0.8) {
-			setup = append(setup, Op{K: OpAdd, P: d, Abs: g.chance(0.5)})
+			op := Op{K: OpAdd, P: d, Abs: g.chance(0.5)}
+			if !op.Abs {
+				op.P = spell(d)
+			}
+			setup = append(setup, op)
 		}
 	}
 	if g.chance(0.3) {
@@ -68,9 +85,9 @@ func genKqFD(prop string, seed uint64, run int, tier string) *Scenario {
 			p := g.pick(cands)
 			switch g.r.Intn(5) {
 			case 0, 1:
-				c = append(c, Op{K: OpAdd, P: p})
+				c = append(c, Op{K: OpAdd, P: spell(p)})
 			case 2, 3:
-				c = append(c, Op{K: OpRemove, P: p})
+				c = append(c, Op{K: OpRemove, P: spell(p)})
 			default:
 				c = append(c, Op{K: OpWatchList})
 			}
@@ -154,9 +171,23 @@ func genKqDir(prop string, seed uint64, run int, tier string) *Scenario {
 		}
 		setup = append(setup, op)
 	}
+	// 25 %: the parent directory is watched as well (before or after its
+	// sub-directories) and removed again as the first step of the history: the
+	// sub-directories stay watched directories of their own
+	var ops []Op
+	if g.chance(0.25) {
+		par := Op{K: OpAdd, P: "w", Abs: g.chance(0.3)}
+		if g.chance(0.5) {
+			setup = append(setup, par)
+		} else {
+			// before the sub-directories: insert ahead of their Adds
+			n := len(setup) - len(dirs)
+			setup = append(setup[:n:n], append([]Op{par}, setup[n:]...)...)
+		}
+		ops = append(ops, Op{K: OpRemove, P: "w", Abs: par.Abs})
+	}
 	sc.Setup = setup
 	world := weights("create", 12, "write", 10, "chmod", 6, "unlink", 10, "mkdir", 4, "rmdir", 4, "rename", 10, "renameout", 3, "renamein", 3, "subfile", 2)
-	var ops []Op
 	for i := 3 + g.r.Intn(24); i > 0; i-- {
 		for _, o := range g.worldOp(dirs, []int{0, 2, 4}, world) {
 			if o.K == OpYield {
